@@ -77,6 +77,11 @@ def corpus_histories(ids):
         mk(9, 1, [f("u:1", 100003), f("u:2", 1)], [[X.op_transfer("u:1", "u:2", "50000"), X.op_transfer("u:1", "u:2", "50000"), X.op_transfer("u:1", "u:2", "1")]]),
         # credit to an account object loaded earlier in the block survives the revert of an unaffordable fee
         mk(3, 7, [f("u:0", 150000), f("u:1", 300000)], [[X.op_transfer("u:1", "u:0", "1"), X.op_transfer("u:0", "a:2", "73499")]]),
+        # whole-balance fallback of a sender that is itself a fee-receiving admin holding less than one fee: its own
+        # share is credited after its account was emptied; the loss is the rounding loss only (one tx per block)
+        mk(4, 50000, [f("a:1", 788500003)], [[X.op_transfer("a:1", "u:1", "5")], [X.op_transfer("a:1", "u:1", "1")], [X.op_store_set(ids, "a:1", "k1", 1)]]),
+        mk(3, 50000, [], [[X.op_transfer("a:2", "u:1", "5")], [X.op_transfer("a:2", "a:0", "1")], [X.op_bad("a:2", 0)]]),
+        mk(7, 1000003, [f("a:0", 20999999999), f("a:6", 13)], [[X.op_transfer("a:0", "a:6", "7")], [X.op_transfer("a:6", "u:1", "0"), X.op_transfer("a:0", "u:1", "0")]]),
     ]
 
 
@@ -197,7 +202,7 @@ def evaluate(ctx, items, flagsets, open_map, ids, exe=None):
             ctx.violation("node crashed / hung while executing a native block: %s" % (out.get("panic") or info.get("problem")), rep)
             continue
         rep = maybe_shrink(ctx, rep, v, flagsets, open_map, ids, exe)
-        kind = X.handle_verdict(ctx, PID, v, flagsets, open_map, "value created or negative balance", rep,
+        kind = X.handle_verdict(ctx, PID, v, flagsets, open_map, "value created, negative balance, or more value lost than the rounding loss of the fees (predicate 1 / 2 / 3)", rep,
                                 relevant={"self_transfer", "neg_amount", "stale_changer"})
         if kind == "mismatch":
             ctx.broken("correspondence:judge_native", "first differing block: replay=%s %s" % (X.save_mismatch(ctx, rep), json.dumps(rep)[:600]))
@@ -273,6 +278,7 @@ def run(ctx):
     return ctx.finish(rule="blocks of native transactions (transfers with amounts from {0,1,balance,balance+1,balance-fee,2^256,negative,non-numeric,empty,"
                            "signed,padded}, to other/self/contract/admin; succeeding and failing contract calls; undecodable payloads; the admin-registration "
                            "vote sequence) over |admins| in {1,2,3,4,7,9} x gas price in {0,1,3,7,1000003} x balances at every fee threshold; "
+                           "admin senders on the whole-balance fallback path (drained admins, governed flow with a deciding voter who cannot pay); "
                            "non-trivial = a block with at least one SUCCESS and one FAILED receipt, distinct by (config, block)")
 
 
